@@ -158,7 +158,15 @@ CHECKS["C17"] = dict(
           "generated steps (admin / localconf / drain with or without JSON payload, unknown types, malformed frames) followed by "
           "terminate: every reply matches, the process stays alive until terminate and then exits 0 within 15 s, after the admin step the "
           "admin port refuses, after the drain step new service connections are not served while the established one still echoes. "
-          "Non-trivial: declared != carried (frames); sequence contains a malformed/unknown frame or a child hand-over. Distinct by "
+          "part handover: TWO (or more) real samaritan processes: the old one serves a TCP echo service with 1..3 established connections "
+          "(optionally with a half-sent request pending on its admin API); 0..2 new processes are started the way a hot restart starts them "
+          "(parent pid in the environment) and SIGKILLed after 0..400 ms, then a last one is started with a terminate delay of 300..1200 ms and "
+          "performs the child side of the hand-over itself (cmd/samaritan/samaritan.go). Oracle: the old process never crashes, is still "
+          "running half the delay after the last child was started and exits cleanly within delay + 25 s; every established connection "
+          "echoes as long as the old process runs; afterwards the new process is alive, serves a new connection to the service port and "
+          "answers the admin API within 5 s. "
+          "Non-trivial: declared != carried (frames); sequence contains a malformed/unknown frame or a child hand-over; handover: a child "
+          "disappeared first or the admin API was busy. Distinct by "
           "(length, declared, type, fill) resp. canonical JSON."),
     assumptions=["each frame is written by one write of <= 4096 bytes and the next frame is only sent after the parent consumed the previous one "
                  "(SIOCOUTQ == 0) or replied: re-synchronisation of the byte stream after an oversized (> 4096 byte) frame is not decided",
@@ -171,6 +179,8 @@ CHECKS["C17"] = dict(
         dict(name="fuzz-frame", test="FuzzFrame", kind="fuzz", fuzz_part="frames", tiers=["thorough"], fuzztime="120s", timeout=400, exclusive=True),
         dict(name="binary", test="TestBinary", kind="rapid", checks={"quick": 10, "thorough": 150}, shards=8, timeout={"quick": 600, "thorough": 3000},
              needs_binary=True, shrinktime="60s"),
+        dict(name="handover", test="TestHandover", kind="rapid", checks={"quick": 3, "thorough": 60}, shards=8, timeout={"quick": 900, "thorough": 3000},
+             needs_binary=True, shrinktime="90s"),
     ],
 )
 
